@@ -17,8 +17,8 @@ import (
 	corev1 "k8s.io/api/core/v1"
 	metav1 "k8s.io/apimachinery/pkg/apis/meta/v1"
 	"k8s.io/apimachinery/pkg/runtime"
-	"k8s.io/client-go/tools/cache"
 	ktesting "k8s.io/client-go/testing"
+	"k8s.io/client-go/tools/cache"
 	"k8s.io/utils/pointer"
 
 	configv1alpha1 "github.com/furiko-io/furiko/apis/config/v1alpha1"
@@ -87,7 +87,7 @@ type CJC struct {
 }
 type CJob struct {
 	Name    string `json:"name"`
-	Jc      string `json:"jc"`     // name of the controller owner
+	Jc      string `json:"jc"`      // name of the controller owner
 	OwnerOk bool   `json:"ownerok"` // exactly one controller owner reference, to the JobConfig of that name and uid
 	LabelOk bool   `json:"labelok"` // jobconfig-uid label = owner uid
 	Sched   int    `json:"sched"`   // schedule-time annotation in seconds since the base (-1 none)
@@ -124,6 +124,7 @@ type CState struct {
 	MaxDown int            `json:"maxdown"` // seconds
 	Quiet   bool           `json:"quiet"`
 	Booted  bool           `json:"booted"`
+	Mutated []string       `json:"mutated"` // informer-cache objects the controller wrote into
 }
 type CLine struct {
 	Ev      string  `json:"ev"`
@@ -145,7 +146,7 @@ type CSched struct {
 	Exprs    []string
 	TZ       string
 	Disabled bool
-	Nbf, Naf int // ticks, -1 none
+	Nbf, Naf int  // ticks, -1 none
 	None     bool // no schedule at all
 }
 
@@ -161,28 +162,29 @@ type CronOpts struct {
 }
 
 type CR struct {
-	O        CronOpts
-	W        *sw.World
-	T        *sw.Tracer
-	Run      int
-	P        *sw.Proc
-	worker   *croncontroller.CronWorker
-	gen      int
-	chanN    int
-	chanJC   []string
-	booted   bool
-	fired    []CFire
-	skipped  []CFire
-	vers     map[string]int // jc name -> current version number
-	verOf    map[string]int // json of the schedule spec -> version
-	nver     int
-	dues     map[int][]int
-	faulted  bool
-	store    *activejobstore.Store
-	cronCfg  *configv1alpha1.CronExecutionConfig
-	admit    *sw.Admission
-	cc       *croncontroller.Context
-	specs    map[string]CSched
+	O       CronOpts
+	W       *sw.World
+	T       *sw.Tracer
+	Run     int
+	P       *sw.Proc
+	P2      *sw.Proc // a second reconciler worker on the same work-queue
+	worker  *croncontroller.CronWorker
+	gen     int
+	chanN   int
+	chanJC  []string
+	booted  bool
+	fired   []CFire
+	skipped []CFire
+	vers    map[string]int // jc name -> current version number
+	verOf   map[string]int // json of the schedule spec -> version
+	nver    int
+	dues    map[int][]int
+	faulted bool
+	store   *activejobstore.Store
+	cronCfg *configv1alpha1.CronExecutionConfig
+	admit   *sw.Admission
+	cc      *croncontroller.Context
+	specs   map[string]CSched
 }
 
 type cronUpdateHandler struct {
@@ -192,7 +194,7 @@ type cronUpdateHandler struct {
 
 func (h *cronUpdateHandler) OnUpdate(jc *execution.JobConfig) {
 	h.c.chanN++
-	h.c.chanJC = append(h.c.chanJC, jc.Name)
+	h.c.chanJC = append(h.c.chanJC, cID(jc.Namespace, jc.Name))
 	h.real.OnUpdate(jc)
 }
 
@@ -209,16 +211,17 @@ func (h *cronEnqueue) EnqueueJobConfig(jc *execution.JobConfig, ts time.Time) er
 			ok = kns == jc.Namespace && n == jc.Name && t.Equal(time.Unix(ts.Unix(), 0))
 		}
 	}
-	h.c.fired = append(h.c.fired, CFire{Jc: jc.Name, T: csec(ts), KeyOk: ok})
+	h.c.fired = append(h.c.fired, CFire{Jc: cID(jc.Namespace, jc.Name), T: csec(ts), KeyOk: ok})
 	return h.real.EnqueueJobConfig(jc, ts)
 }
 
 type cronRecorder struct{ c *CR }
 
-func (r *cronRecorder) CreatedJob(context.Context, *execution.JobConfig, *execution.Job)              {}
-func (r *cronRecorder) CreateJobFailed(context.Context, *execution.JobConfig, *execution.Job, string) {}
+func (r *cronRecorder) CreatedJob(context.Context, *execution.JobConfig, *execution.Job) {}
+func (r *cronRecorder) CreateJobFailed(context.Context, *execution.JobConfig, *execution.Job, string) {
+}
 func (r *cronRecorder) SkippedJobSchedule(_ context.Context, jc *execution.JobConfig, ts time.Time, _ string) {
-	r.c.skipped = append(r.c.skipped, CFire{Jc: jc.Name, T: csec(ts), KeyOk: true})
+	r.c.skipped = append(r.c.skipped, CFire{Jc: cID(jc.Namespace, jc.Name), T: csec(ts), KeyOk: true})
 }
 
 func NewCR(o CronOpts, t *sw.Tracer, run int) *CR {
@@ -284,6 +287,13 @@ func (c *CR) build() {
 	}
 	ctrl := reconciler.NewController(croncontroller.NewReconciler(cc, ctl, rec, st, nil), q)
 	p.Work["cron"] = ctrl.VerifWorkOnce
+	p2 := w.Proc("cronB")
+	c.P2 = p2
+	cc2 := croncontroller.NewContext(p2.Context())
+	cc2.VerifSetQueue(q)
+	p2.Queues["cron"] = q
+	ctl2 := croncontroller.NewExecutionControl("cron", p2.CS.Furiko().ExecutionV1alpha1(), rec)
+	p2.Work["cron"] = reconciler.NewController(croncontroller.NewReconciler(cc2, ctl2, rec, st, nil), q).VerifWorkOnce
 	// informers start (relist), store recovers, cron worker initialises its heap from the lister
 	w.Inf.JobConfigs.Relist(w.API.List("jobconfigs"))
 	w.Inf.Jobs.Relist(w.API.List("jobs"))
@@ -296,7 +306,44 @@ func (c *CR) build() {
 	c.chanN, c.chanJC = 0, nil
 }
 
-// jcName: the second JobConfig has dots in its name (work-queue keys are split at dots).
+// Identities. A JobConfig has a trace id (jc1, jc2.v1.x, jc3, jc4). The third one lives in another namespace under the
+// SAME name as the first (per-JobConfig state must be keyed by namespace and name); the second has dots in its name
+// (work-queue keys are split at dots).
+const ns2 = "tenant-b"
+
+func cReal(id string) (string, string) {
+	if id == "jc3" {
+		return ns2, "jc1"
+	}
+	return ns, id
+}
+func cID(namespace, name string) string {
+	if namespace == ns2 && name == "jc1" {
+		return "jc3"
+	}
+	return name
+}
+
+// cKeyID maps "namespace/name[.unix]" and "namespace/name[-unix]" keys of the real code to their trace form.
+func cKeyID(key string) string {
+	namespace, rest := ns, key
+	if i := strings.Index(key, "/"); i >= 0 {
+		namespace, rest = key[:i], key[i+1:]
+	}
+	if namespace == ns2 && strings.HasPrefix(rest, "jc1") {
+		return "jc3" + rest[3:]
+	}
+	return rest
+}
+
+// cKeyReal is the inverse of cKeyID.
+func cKeyReal(id string) string {
+	if strings.HasPrefix(id, "jc3") {
+		return ns2 + "/jc1" + id[3:]
+	}
+	return ns + "/" + id
+}
+
 func jcName(i int) string {
 	if i == 2 {
 		return "jc2.v1.x"
@@ -362,7 +409,8 @@ func (c *CR) dueTicks(name string, s CSched) []int {
 	for _, e := range s.Exprs {
 		var opts []cronexpr.ParseOption
 		if c.O.HashNames {
-			opts = append(opts, cronexpr.WithHash(ns+"/"+name), cronexpr.WithHashFields())
+			rns, rname := cReal(name)
+			opts = append(opts, cronexpr.WithHash(rns+"/"+rname), cronexpr.WithHashFields())
 		}
 		x, err := cronexpr.ParseForFormat(format, e, opts...)
 		if err != nil {
@@ -410,7 +458,7 @@ func (c *CR) projJC(o runtime.Object) CJC {
 		cp := s.DeepCopy()
 		cp.LastUpdated = nil
 		b, _ := json.Marshal(cp)
-		if v, ok := c.verOf[x.Name+"|"+string(b)]; ok {
+		if v, ok := c.verOf[cID(x.Namespace, x.Name)+"|"+string(b)]; ok {
 			p.Ver = v
 		}
 	}
@@ -424,9 +472,10 @@ func (c *CR) State() CState {
 		Counter: map[string]int{}, HNames: []string{}, HPrio: []int{}, Wq: []string{}, Retry: []string{}, Jobs: []CJob{}, JCache: []string{}}
 	for i := 1; i <= c.O.NJC; i++ {
 		n := jcName(i)
-		s.Api[n] = c.projJC(w.API.Get("jobconfigs", ns, n))
-		s.Cache[n] = c.projJC(sw.CacheGet(w.Inf.JobConfigs, ns+"/"+n))
-		if o := sw.CacheGet(w.Inf.JobConfigs, ns+"/"+n); o != nil && c.booted {
+		rns, rname := cReal(n)
+		s.Api[n] = c.projJC(w.API.Get("jobconfigs", rns, rname))
+		s.Cache[n] = c.projJC(sw.CacheGet(w.Inf.JobConfigs, rns+"/"+rname))
+		if o := sw.CacheGet(w.Inf.JobConfigs, rns+"/"+rname); o != nil && c.booted {
 			s.Counter[n] = int(c.store.CountActiveJobsForConfig(o.(*execution.JobConfig)))
 		}
 	}
@@ -436,6 +485,7 @@ func (c *CR) State() CState {
 		s.Chan = a + u
 	}
 	s.Booted = c.booted
+	s.Mutated = append(w.Inf.JobConfigs.Mutated(), w.Inf.Jobs.Mutated()...)
 	s.MaxMiss = 5
 	if c.O.MaxMissed >= 0 {
 		s.MaxMiss = c.O.MaxMissed
@@ -453,27 +503,29 @@ func (c *CR) State() CState {
 	if sch := c.worker.VerifSchedule(); sch != nil {
 		names, prios, index := sch.VerifSnapshot()
 		for i, n := range names {
-			s.HNames = append(s.HNames, strings.TrimPrefix(n, ns+"/"))
+			s.HNames = append(s.HNames, cKeyID(n))
 			s.HPrio = append(s.HPrio, int(int64(prios[i])-cronBase))
 		}
 		for k, v := range index {
-			s.HIndex[strings.TrimPrefix(k, ns+"/")] = v
+			s.HIndex[cKeyID(k)] = v
 		}
 	}
 	for _, k := range q.Ready() {
-		s.Wq = append(s.Wq, strings.TrimPrefix(k, ns+"/"))
+		s.Wq = append(s.Wq, cKeyID(k))
 	}
 	for _, k := range sw.SortedKeys(q.Retries) {
-		s.Retry = append(s.Retry, strings.TrimPrefix(k, ns+"/"))
+		s.Retry = append(s.Retry, cKeyID(k))
 	}
 	for _, o := range w.API.List("jobs") {
 		j := o.(*execution.Job)
-		cj := CJob{Name: j.Name, Sched: -1, Started: !j.Status.StartTime.IsZero(), Term: j.Status.Phase.IsTerminal()}
+		cj := CJob{Name: cKeyID(j.Namespace + "/" + j.Name), Sched: -1, Started: !j.Status.StartTime.IsZero(), Term: j.Status.Phase.IsTerminal()}
+		owner := ""
 		nctl := 0
 		for _, r := range j.OwnerReferences {
 			if r.Controller != nil && *r.Controller {
 				nctl++
-				cj.Jc = r.Name
+				owner = r.Name
+				cj.Jc = cID(j.Namespace, r.Name)
 				cj.OwnerOk = r.Kind == execution.KindJobConfig
 				cj.LabelOk = j.Labels[jobconfig.LabelKeyJobConfigUID] == string(r.UID)
 				cj.Uid = string(r.UID)
@@ -485,19 +537,21 @@ func (c *CR) State() CState {
 		if v, ok := j.Annotations[jobconfig.AnnotationKeyScheduleTime]; ok {
 			if u, err := strconv.ParseInt(v, 10, 64); err == nil {
 				cj.Sched = int(u - cronBase)
-				cj.NameOk = j.Name == fmt.Sprintf("%s-%d", cj.Jc, u)
+				cj.NameOk = j.Name == fmt.Sprintf("%s-%d", owner, u)
 			}
 		}
 		s.Jobs = append(s.Jobs, cj)
 	}
 	for _, o := range w.Inf.Jobs.GetIndexer().List() {
-		s.JCache = append(s.JCache, o.(*execution.Job).Name)
+		s.JCache = append(s.JCache, cKeyID(o.(*execution.Job).Namespace+"/"+o.(*execution.Job).Name))
 	}
 	sort.Strings(s.JCache)
-	s.InSync = c.P.Stp != nil
+	s.InSync = c.P.Stp != nil || c.P2.Stp != nil
 	s.Pend = "none"
 	if c.P.Stp != nil {
 		s.Pend = c.P.Stp.Pending().Op()
+	} else if c.P2.Stp != nil {
+		s.Pend = c.P2.Stp.Pending().Op()
 	}
 	s.MaxMiss = 5
 	if c.O.MaxMissed >= 0 {
@@ -524,7 +578,7 @@ func (c *CR) emit(ev string, l Label, seg *sw.Seg, newver int, due []int) {
 	}
 	c.fired, c.skipped = nil, nil
 	if seg != nil && seg.Done != nil {
-		line.Op, line.Key, line.Err = seg.Done.Op(), strings.TrimPrefix(seg.Done.Key, ns+"/"), seg.Done.Err
+		line.Op, line.Key, line.Err = seg.Done.Op(), cKeyID(seg.Done.Key), seg.Done.Err
 	}
 	line.St = c.State()
 	c.T.Emit(line)
@@ -586,7 +640,8 @@ func (c *CR) register(name string, s CSched) (int, []int) {
 }
 
 func (c *CR) jcObj(name string) *execution.JobConfig {
-	if o := c.W.API.Get("jobconfigs", ns, name); o != nil {
+	rns, rname := cReal(name)
+	if o := c.W.API.Get("jobconfigs", rns, rname); o != nil {
 		return o.(*execution.JobConfig)
 	}
 	return nil
@@ -603,11 +658,18 @@ func (c *CR) UserSet(l Label, s CSched) bool {
 	cur := c.jcObj(name)
 	var err error
 	if cur == nil {
-		jc := &execution.JobConfig{ObjectMeta: metav1.ObjectMeta{Name: name, Namespace: ns},
+		rns, rname := cReal(name)
+		jc := &execution.JobConfig{ObjectMeta: metav1.ObjectMeta{Name: rname, Namespace: rns},
 			Spec: execution.JobConfigSpec{Concurrency: execution.ConcurrencySpec{Policy: execution.ConcurrencyPolicy(pol)}, Schedule: s.spec(),
 				Template: execution.JobTemplateSpec{Spec: execution.JobTemplate{TaskTemplate: execution.TaskTemplate{Pod: &execution.PodTemplateSpec{}}}}}}
 		jc.Spec.Template.Spec.TaskTemplate.Pod.Spec.Containers = []corev1.Container{{Name: "c", Image: "x"}}
-		_, err = c.W.API.Direct("user", ktesting.NewCreateAction(sw.JobConfigsGVR, ns, jc))
+		// template metadata: every JobConfig has an annotation; the even ones carry (copy-pasted) labels including the reserved
+		// JobConfig-UID key with somebody else's value, which the controller must override
+		jc.Spec.Template.Annotations = map[string]string{"example.com/note": "from-template"}
+		if l.C%2 == 0 {
+			jc.Spec.Template.Labels = map[string]string{"team": "a", jobconfig.LabelKeyJobConfigUID: "00000000-not-this-jobconfig"}
+		}
+		_, err = c.W.API.Direct("user", ktesting.NewCreateAction(sw.JobConfigsGVR, rns, jc))
 	} else {
 		if cur.DeletionTimestamp != nil {
 			return false
@@ -622,7 +684,7 @@ func (c *CR) UserSet(l Label, s CSched) bool {
 		}
 		cur.Spec.Concurrency.Policy = execution.ConcurrencyPolicy(pol)
 		cur.ResourceVersion = ""
-		_, err = c.W.API.Direct("user", ktesting.NewUpdateAction(sw.JobConfigsGVR, ns, cur))
+		_, err = c.W.API.Direct("user", ktesting.NewUpdateAction(sw.JobConfigsGVR, cur.Namespace, cur))
 	}
 	if err != nil {
 		panic(fmt.Sprintf("UserSet %s %+v: %v", name, s, err))
@@ -661,7 +723,8 @@ func (c *CR) Apply(l Label) bool {
 		if c.jcObj(name) == nil {
 			return false
 		}
-		if _, err := w.API.Direct("user", ktesting.NewDeleteAction(sw.JobConfigsGVR, ns, name)); err != nil {
+		rns, rname := cReal(name)
+		if _, err := w.API.Direct("user", ktesting.NewDeleteAction(sw.JobConfigsGVR, rns, rname)); err != nil {
 			panic(err)
 		}
 	case "Tick":
@@ -711,37 +774,46 @@ func (c *CR) Apply(l Label) bool {
 		if latest == nil || (cur.Status.LastScheduled != nil && !latest.After(cur.Status.LastScheduled.Time)) {
 			return false
 		}
-		w.API.Mutate("jobconfigs", ns, name, func(o runtime.Object) runtime.Object {
+		w.API.Mutate("jobconfigs", cur.Namespace, cur.Name, func(o runtime.Object) runtime.Object {
 			x := o.(*execution.JobConfig)
 			x.Status.LastScheduled = latest
 			return x
 		})
 	case "JobGone": // a Job finishes and is cleaned up (TTL): K = job name
-		if w.API.Get("jobs", ns, l.K) == nil {
+		jk := strings.SplitN(cKeyReal(l.K), "/", 2)
+		if w.API.Get("jobs", jk[0], jk[1]) == nil {
 			return false
 		}
-		w.API.Mutate("jobs", ns, l.K, func(o runtime.Object) runtime.Object { return nil })
+		w.API.Mutate("jobs", jk[0], jk[1], func(o runtime.Object) runtime.Object { return nil })
 	case "RetryFire":
-		if !q.Retries[ns+"/"+l.K] {
+		if !q.Retries[cKeyReal(l.K)] {
 			return false
 		}
-		q.FireRetry(ns + "/" + l.K)
+		q.FireRetry(cKeyReal(l.K))
 	case "SyncBegin":
-		k := ns + "/" + l.K
-		if c.P.Stp != nil || !q.IsReady(k) {
+		k := cKeyReal(l.K)
+		wp := c.P
+		if l.I == 2 {
+			wp = c.P2
+		}
+		if wp.Stp != nil || !q.IsReady(k) {
 			return false
 		}
-		seg := c.P.SyncBegin("cron", k)
+		seg := wp.SyncBegin("cron", k)
 		c.emit("SyncBegin", l, &seg, -1, nil)
 		return true
 	case "Step":
-		if c.P.Stp == nil {
+		wp := c.P
+		if l.I == 2 {
+			wp = c.P2
+		}
+		if wp.Stp == nil {
 			return false
 		}
 		if l.F == "applied" {
 			c.faulted = true
 		}
-		seg := c.P.Step(faultErr(l.F))
+		seg := wp.Step(faultErr(l.F))
 		c.emit("Step", l, &seg, -1, nil)
 		return true
 	case "Restart":
@@ -771,14 +843,16 @@ func (c *CR) Drain(budget int) bool {
 		switch {
 		case c.P.Stp != nil:
 			c.Apply(Label{A: "Step"})
+		case c.P2.Stp != nil:
+			c.Apply(Label{A: "Step", I: 2})
 		case w.Inf.JobConfigs.Pending() > 0:
 			c.Apply(Label{A: "DeliverJC"})
 		case w.Inf.Jobs.Pending() > 0:
 			c.Apply(Label{A: "DeliverJob"})
 		case len(q.Ready()) > 0:
-			c.Apply(Label{A: "SyncBegin", K: strings.TrimPrefix(q.Ready()[0], ns+"/")})
+			c.Apply(Label{A: "SyncBegin", K: cKeyID(q.Ready()[0])})
 		case len(q.Retries) > 0:
-			c.Apply(Label{A: "RetryFire", K: strings.TrimPrefix(sw.SortedKeys(q.Retries)[0], ns+"/")})
+			c.Apply(Label{A: "RetryFire", K: cKeyID(sw.SortedKeys(q.Retries)[0])})
 		case !worked:
 			c.Apply(Label{A: "Work"})
 			worked = true
@@ -801,7 +875,9 @@ func (c *CR) Finale(budget int) bool {
 // ---- random driver ----
 
 var cronExprPool = []string{"* * * * *", "*/2 * * * *", "*/3 * * * *", "*/5 * * * *", "1-59/4 * * * *", "H/5 * * * *", "H * * * *", "7,11,13 * * * *",
-	"0 * * * * * *", "30 */2 * * * * *", "H H/2 * * * * *", "10-20 23,0 * * *", "*/7 * 14,15 11 *", "0 0 * * *", "5 23 * * 2", "*/10 * * * 2-3"}
+	"0 * * * * * *", "30 */2 * * * * *", "H H/2 * * * * *", "10-20 23,0 * * *", "*/7 * 14,15 11 *", "0 0 * * *", "5 23 * * 2", "*/10 * * * 2-3",
+	// bounded year fields: exhausted before the base instant, exhausted during the run, and live
+	"0 12 9 2 * 2021", "*/4 23 14 11 * 2023", "0 30 23 14 11 * 2023", "*/6 * * * * 2023-2024"}
 var cronTZPool = []string{"UTC", "", "Asia/Singapore", "America/New_York", "UTC+05:30", "GMT-3", "UTC-10:00", "Asia/Kolkata", "GMT"}
 
 func (c *CR) randSched(rng *rand.Rand) CSched {
@@ -945,20 +1021,21 @@ func CronMain(args []string) (interface{}, error) {
 				}
 				w := c.W
 				q := c.P.Queues["cron"]
-				if c.P.Stp != nil {
-					l := Label{A: "Step"}
-					if rng.Intn(8) == 0 {
-						l.F = []string{"error", "conflict", "timeout"}[rng.Intn(3)]
-					}
-					add(l, 4)
-				}
-				if c.P.Stp == nil {
-					for _, k := range q.Ready() {
-						add(Label{A: "SyncBegin", K: strings.TrimPrefix(k, ns+"/")}, 2)
+				for wi, wp := range []*sw.Proc{c.P, c.P2} {
+					if wp.Stp != nil {
+						l := Label{A: "Step", I: wi + 1}
+						if rng.Intn(8) == 0 {
+							l.F = []string{"error", "conflict", "timeout"}[rng.Intn(3)]
+						}
+						add(l, 3)
+					} else {
+						for _, k := range q.Ready() {
+							add(Label{A: "SyncBegin", K: cKeyID(k), I: wi + 1}, 2-wi)
+						}
 					}
 				}
 				for _, k := range sw.SortedKeys(q.Retries) {
-					add(Label{A: "RetryFire", K: strings.TrimPrefix(k, ns+"/")}, 1)
+					add(Label{A: "RetryFire", K: cKeyID(k)}, 1)
 				}
 				if w.Inf.JobConfigs.Pending() > 0 {
 					add(Label{A: "DeliverJC"}, 4)
@@ -989,7 +1066,8 @@ func CronMain(args []string) (interface{}, error) {
 					add(Label{A: "StatusSync", C: jci}, 2)
 				}
 				if jobs := w.API.List("jobs"); len(jobs) > 0 && rng.Intn(10) == 0 {
-					add(Label{A: "JobGone", K: jobs[rng.Intn(len(jobs))].(*execution.Job).Name}, 1)
+					gj := jobs[rng.Intn(len(jobs))].(*execution.Job)
+					add(Label{A: "JobGone", K: cKeyID(gj.Namespace + "/" + gj.Name)}, 1)
 				}
 				if restarts > 0 && rng.Intn(40) == 0 {
 					add(Label{A: "Restart"}, 1)
